@@ -84,3 +84,17 @@ def wfQBits (m : QBitsMeta) : WFVerdict :=
         if m.zeroShape ≠ ps ∨ m.zeroDtype ≠ "int8" then .zeroShape else .ok
 
 end Quanto
+
+namespace Quanto
+
+/-- dtype name of a working format as torch prints it -/
+def fmtDtype (F : Fmt) : String :=
+  if F == f32 then "float32" else if F == f16 then "float16" else if F == bf16 then "bfloat16" else "other"
+
+def QT.qtypeName : QT → String
+  | .qint8 => "qint8" | .e4m3 => "qfloat8_e4m3fn" | .e5m2 => "qfloat8_e5m2"
+
+def QT.storageName : QT → String
+  | .qint8 => "int8" | .e4m3 => "float8_e4m3fn" | .e5m2 => "float8_e5m2"
+
+end Quanto
